@@ -255,11 +255,28 @@ def part_b_history(sh, rng, seed, default_cap=False):
     if default_cap:
         cap = 2 ** 14
         r = Reservoir()
+    added, n_added, counter = set(), 0, [0]
+    initial = 0
+    if default_cap:
+        pass
     else:
         cap = rng.randint(1, 8)
-        r = Reservoir(cap)
-    ops.append(['new', cap])
-    added, n_added, counter = set(), 0, [0]
+        if rng.chance(0.35):
+            # values handed to the constructor arrive like any others
+            initial = rng.pick([0, 1, cap - 1, cap, cap + 1, cap * 3, cap * 10])
+            data = ['v%d' % (i + 1) for i in range(initial)]
+            counter[0] = n_added = initial
+            added.update(data)
+            try:
+                r = Reservoir(cap, data=rng.pick([data, tuple(data), iter(data)]))
+            except Exception as e:
+                sh.violation('C19/store-raises:new', 'Reservoir(%d, data=<%d values>) raised %s: %s' % (cap, initial, type(e).__name__, e),
+                             {'part': 'B', 'ops': [['new', cap, initial]], 'seed': seed, 'default_cap': False})
+                return
+            sh.hit('B:constructed-with-data')
+        else:
+            r = Reservoir(cap)
+    ops.append(['new', cap, initial])
     shrunk = grown_after_shrink = False
     nontrivial = False
 
@@ -293,6 +310,8 @@ def part_b_history(sh, rng, seed, default_cap=False):
             del _contract['broken'][:]
             return False
         return True
+    if initial and not check(ops[-1]):
+        return
     n_ops = rng.randint(5, 60) if not default_cap else 6
     for _ in range(n_ops):
         c = rng.random()
@@ -413,6 +432,9 @@ def replay(sh, case, spec):
             for op in case['ops']:
                 if op[0] == 'new':
                     r = Reservoir(op[1]) if not case.get('default_cap') else Reservoir()
+                    if len(op) > 2 and op[2]:
+                        n = op[2]
+                        r = Reservoir(op[1], data=['v%d' % (i + 1) for i in range(n)])
                 elif op[0].startswith('add x'):
                     for _ in range(int(op[0][5:])):
                         n += 1
